@@ -75,9 +75,21 @@ impl<'a, W: Write> DocumentPrinter<'a, W> {
     /// Prints the given doc comments.
     pub fn docs(&mut self, docs: &[DocComment]) -> std::fmt::Result {
         for doc in docs {
+            // An empty doc comment (e.g. a blank line of a block comment that
+            // was printed as `///`) has no lines but must still be printed
+            if doc.comment.trim().is_empty() {
+                self.indent()?;
+                write!(self.writer, "///")?;
+                self.newline()?;
+                continue;
+            }
+
             for line in doc.comment.lines() {
                 self.indent()?;
-                write!(self.writer, "/// {line}", line = line.trim())?;
+                match line.trim() {
+                    "" => write!(self.writer, "///")?,
+                    line => write!(self.writer, "/// {line}")?,
+                }
                 self.newline()?;
             }
         }
